@@ -249,6 +249,14 @@ NeutralSpecies ==
                  l == ValAt("lim", e)   d == ValAt("dav", e)   x == ValAt("ext", e)
              IN  /\ IsRQ(l) /\ l.q = QZero /\ IsRQ(d) /\ d.q = QZero
                  /\ IsRQ(x) /\ x.q = Norm(QMul(dh.C, QDiv(dh.IS, dh.I0)))
+(* the extended law really depends on the ion-size parameter: for a charged species at I > 0    *)
+(* (A, B > 0) a larger ion has a log gamma strictly closer to zero - two ions of equal charge      *)
+(* and different size never share a coefficient                                                   *)
+IonSizeMatters ==
+    (IsLaw /\ dh.kind = "ext" /\ dh.z # QZero /\ QLt(QZero, dh.IS) /\ QLt(QZero, dh.A) /\ QLt(QZero, dh.B)) =>
+        LET e == With(PointEnv(dh), "C", QZero)
+            x1 == ValAt("ext", e)   x2 == ValAt("ext", With(e, "a", QAdd(dh.a, <<1, 10>>)))
+        IN  (IsRQ(x1) /\ IsRQ(x2)) => QLt(x1.q, x2.q)
 (* a perfect-square ionic strength makes every law rational (so the exact branch is not vacuous) *)
 SquareIsRational ==
     (IsLaw /\ QIsSquare(Norm(QDiv(dh.IS, dh.I0)))) => IsRQ(PointValue(dh))
@@ -429,6 +437,12 @@ ProdConc(p) ==
         half == QDiv(QSumSeq([i \in 1..n |-> QMul(p.nus[i], QMul(p.zs[i], p.zs[i]))]), Q(2))
     IN  IF (\A i \in 1..n : QLt(QZero, p.nus[i])) /\ ~QIsZero(half)
         THEN [i \in 1..n |-> QDiv(QMul(p.nus[i], p.IS), half)] ELSE <<>>
+(* structural class of a product point (for stratified sampling): ions sharing a charge but not  *)
+(* a size, uncharged participants                                                                *)
+ProdTag(p) ==
+    IF p.kind \notin ProdKinds THEN ""
+    ELSE (IF \E i, j \in 1..Len(p.zs) : i # j /\ p.zs[i] = p.zs[j] /\ p.pm[i] # p.pm[j] THEN "-samez" ELSE "")
+         \o (IF \E i \in 1..Len(p.zs) : p.zs[i] = QZero THEN "-neutral" ELSE "")
 DHCase ==
     LET v == PointValue(dh) IN
     [ in  |-> [kind |-> dh.kind, pt |-> dh,
@@ -442,7 +456,7 @@ DHCase ==
                rtol |-> IF dh.kind \in LawKinds THEN <<1, 1000000000>>
                         ELSE IF dh.kind \in ABKinds THEN ABRtol ELSE <<5, 1000>>,
                dim |-> IF dh.kind = "B" THEN << <<"m", -1>> >> ELSE <<>>],
-      cls |-> dh.kind \o "-" \o v.st ]
+      cls |-> dh.kind \o "-" \o v.st \o ProdTag(dh) ]
 
 CaseRec == IF dh = NoDH THEN IonCase ELSE DHCase
 Emit == Done => PrintT(<<"CASE", ToJson(CaseRec)>>)
